@@ -102,6 +102,7 @@ def envN : Env :=
                        { name := [97], ty := .arr (.ref "In"), optional := false, dflt := none }])]
 def cfgN : TCfg := { env := envN, tracker := { excl := .empty, ignore := 0 } }
 -- {"a":[{"i":1},{"n":"q","u":[1]}],"x":{}}  →  missing a[1].i and x.i
+unseal Strconv.digitsOfNat in
 example : (match treeRead cfgN true [] (.ref "Out")
       (.obj [([97], .arr [.obj [([105], .num [49])], .obj [([110], .str [113]), ([117], .arr [.num [49]])]]), ([120], .obj [])]) with
     | .err (.missing ps _) => ps | _ => []) = [[97, 91, 49, 93, 46, 105], [120, 46, 105]] := by rfl
